@@ -35,14 +35,38 @@ pub fn run(ctx: &Ctx) -> i32 {
         for (ti, t) in g.terms.iter_mut().enumerate() {
             *t = TermDef::raw(letters[ti]);
         }
-        g.states[0].auto_nl = auto_nl;
-        g.states[0].auto_ws = auto_ws;
-        g.states[0].allow_unmatched = allow;
-        if comments >= 1 {
-            g.states[0].line_comments.push(("//".into(), Quote::Raw));
+        // every third case: the sentence lives in a second scanner state entered on '[' and left on
+        // ']'; the two states differ in allow-unmatched, the state active at the injection decides
+        let two_state = (i / 48) % 3 == 2;
+        if two_state {
+            let inner = g.start.clone();
+            for t in g.terms.iter_mut() {
+                t.states = vec![1];
+            }
+            let open = g.terms.len();
+            g.terms.push(TermDef::raw("["));
+            let mut close = TermDef::raw("]");
+            close.states = vec![1];
+            g.terms.push(close);
+            g.rules.insert(0, Rule { name: "Wrap".into(), alts: vec![vec![Factor::N("Open".into(), AstCtl::default()), Factor::N(inner, AstCtl::default()), Factor::N("Close".into(), AstCtl::default())]] });
+            g.rules.push(Rule { name: "Open".into(), alts: vec![vec![Factor::T(open, AstCtl::default())]] });
+            g.rules.push(Rule { name: "Close".into(), alts: vec![vec![Factor::T(open + 1, AstCtl::default())]] });
+            g.start = "Wrap".into();
+            g.states.push(ScannerState::new("Inner"));
+            g.states[0].on.push((vec!["Open".into()], Trans::Enter("Inner".into())));
+            g.states[1].on.push((vec!["Close".into()], Trans::Enter("INITIAL".into())));
         }
-        if comments == 2 {
-            g.states[0].block_comments.push((("/*".into(), Quote::Raw), ("*/".into(), Quote::Raw)));
+        let allow_of: Vec<bool> = if two_state { vec![allow, !allow] } else { vec![allow] };
+        for (si, st) in g.states.iter_mut().enumerate() {
+            st.auto_nl = auto_nl;
+            st.auto_ws = auto_ws;
+            st.allow_unmatched = allow_of[si];
+            if comments >= 1 {
+                st.line_comments.push(("//".into(), Quote::Raw));
+            }
+            if comments == 2 {
+                st.block_comments.push((("/*".into(), Quote::Raw), ("*/".into(), Quote::Raw)));
+            }
         }
         let res: Vec<Re> = g.terms.iter().map(|t| Re::lit(&t.text)).collect();
         let nterm = res.len();
@@ -106,9 +130,17 @@ pub fn run(ctx: &Ctx) -> i32 {
                 // does the reference say the injected run contains unmatched text?
                 let chars: Vec<char> = text.chars().collect();
                 let offs = byte_offsets(&text);
-                let reference = flat_ref(&reference_scan(&modes, &chars), &offs);
+                let ref_toks = reference_scan(&modes, &chars);
+                let reference = flat_ref(&ref_toks, &offs);
                 let inj_end = inj_at + inj.len();
-                let unmatched = reference.iter().any(|t| t.0 == Kind::Gap && t.1 < inj_end && t.2 > inj_at);
+                let gap_modes: Vec<usize> = ref_toks.iter().filter(|t| t.kind == Kind::Gap && offs[t.start] < inj_end && offs[t.end] > inj_at).map(|t| t.mode).collect();
+                let unmatched = !gap_modes.is_empty();
+                // all unmatched pieces of one injection lie in one scanner state
+                if gap_modes.iter().any(|m| *m != gap_modes[0]) {
+                    rep.count("injection_spans_states");
+                    continue;
+                }
+                let allow = unmatched && allow_of[gap_modes[0]];
                 // the significant tokens must still be the sentence (the injection may glue or split)
                 let sig: Vec<usize> = reference.iter().filter_map(|t| if let Kind::Term(x) = t.0 { Some(x) } else { None }).collect();
                 if !unmatched || sig != w.iter().map(|t| c.g.canon_term(*t)).collect::<Vec<_>>() {
@@ -121,7 +153,7 @@ pub fn run(ctx: &Ctx) -> i32 {
                     rep.inconclusive("parser panicked or ran away (C19)");
                     continue;
                 }
-                let wit = || json!({"case": case_json(&c), "plain": plain, "input": text, "injected": inj, "at_byte": inj_at, "allow_unmatched": allow, "auto_newline": auto_nl, "auto_ws": auto_ws});
+                let wit = || json!({"case": case_json(&c), "plain": plain, "input": text, "injected": inj, "at_byte": inj_at, "allow_unmatched_in_the_active_state": allow, "two_scanner_states": two_state, "auto_newline": auto_nl, "auto_ws": auto_ws});
                 if !allow {
                     if o.ok {
                         rep.violation(
@@ -148,7 +180,7 @@ pub fn run(ctx: &Ctx) -> i32 {
             }
         }
     });
-    let rule = "case = (one of 48 configurations auto_newline x auto_ws x allow_unmatched x {no, line, line+block comments} x LL/LALR over a small generated grammar with one-character terminals, member sentence, injection of a character or run from {\\n, \\r, \\t, blank, U+0085, U+2028, U+00A0, #, e-acute, @, CJK, \\r\\n, ##, \\n\\n} at every token boundary); only injections for which the reference tokenizer (no catch-all rule) finds unmatched text and unchanged significant tokens are used; without allow-unmatched the parse must fail, with it the parse must succeed and a gap leaf must cover the text; distinct by (grammar, input)";
+    let rule = "case = (one of 48 configurations auto_newline x auto_ws x allow_unmatched x {no, line, line+block comments} x LL/LALR over a small generated grammar with one-character terminals; every third case wraps the grammar in '[' .. ']' that switch to a second scanner state with the opposite allow-unmatched setting - the setting of the state active at the injection decides, member sentence, injection of a character or run from {\\n, \\r, \\t, blank, U+0085, U+2028, U+00A0, #, e-acute, @, CJK, \\r\\n, ##, \\n\\n} at every token boundary); only injections for which the reference tokenizer (no catch-all rule) finds unmatched text and unchanged significant tokens are used; without allow-unmatched the parse must fail, with it the parse must succeed and a gap leaf must cover the text; distinct by (grammar, input)";
     let min = if quick { 2000 } else { 30000 };
     finish(ctx, rep, rule, (min as f64 * ctx.scale) as u64, json!({}), t0.elapsed().as_secs_f64())
 }
